@@ -3,5 +3,6 @@ CONSTANTS
   MaxTxs = 2
   OutShapes <- OutsMid
   InShapes <- InsMid
+  SampleSize = 0
   Faults = {"none"}
 INVARIANTS EmitAll
